@@ -1,16 +1,17 @@
-\* C03 leg A quick: 2 stores, <= 2 frames per store, <= 3 frames in all, 3 label sets (replica label in the
-\* middle), 4 chunk lists (raw, aggregated, none, aggregated sharing a sub-chunk), response batch 0 and 2
+\* C03 leg A thorough: 3 stores, <= 2 frames per store, <= 3 frames in all, 4 label sets (two replicas of one
+\* series, replica label in the middle), 6 chunk lists (raw equal/disjoint, aggregated identical /
+\* sharing count / sharing sum), response batch 2; worlds for the harness: the 2-store worlds, every 25th
 SPECIFICATION Spec
-CONSTANTS NStores = 2
+CONSTANTS NStores = 3
           MaxPerStore = 2
           MaxTotal = 3
-          NLsets = 3
-          NChunkLists = 4
-          RespBatch = {0, 2}
+          NLsets = 4
+          NChunkLists = 6
+          RespBatch = {2}
           CaseStores = 2
           CasePerStore = 2
           CaseTotal = 3
-          CaseStride = 9
+          CaseStride = 25
 INVARIANTS C03_Response C03_EmittedIsFinal C03_Batching C03_TieIndependent
 PROPERTY C03_Progresses
 CHECK_DEADLOCK TRUE
